@@ -19,6 +19,16 @@ pub mod body {
             ensures r@ == unknown_reply(request_id, self.rtype),
         { unimplemented!() }
     }
+    #[derive(Clone, Copy)]
+    pub struct BeginRequest { pub role: Role, pub flags: RequestFlags }
+    impl BeginRequest {
+        pub const LEN: usize = 8;
+        // kani: begin_request_codec (all 2^64 bodies)
+        #[verifier::external_body]
+        pub fn from_bytes(data: [u8; 8]) -> (r: Result<Self, Error>)
+            ensures r == begin_decode(data@),
+        { unimplemented!() }
+    }
     pub struct EndRequest { pub app_status: u32, pub protocol_status: ProtocolStatus }
     impl EndRequest {
         // kani: endrequest_to_record_matches_spec (all app_status x status x ids)
